@@ -98,7 +98,9 @@ def transform_var_h(text, fired):
 def transform_sim_header(text, fired):
     # T5: no dynamic dispatch; pure virtuals get an asserting body
     text, n1 = re.subn(r"\bvirtual\s+", "", text)
-    text, n2 = re.subn(r"\)\s*=\s*0\s*;", ') { __CPROVER_assert(0, "pure virtual called"); }', text)
+    # the body of a pure virtual is the macro VERIF_PURE_BODY: by default (tools/vlib.py) an asserting body; a harness that
+    # supplies its own contract for the base-class methods defines it as ';' and defines the methods itself
+    text, n2 = re.subn(r"\)\s*=\s*0\s*;", ') VERIF_PURE_BODY', text)
     if n1 or n2:
         fired["T5"] = fired.get("T5", 0) + n1 + n2
     return text
@@ -150,6 +152,20 @@ def transform(rel, text):
             fired["T8"] = 1
     if rel in T9:
         text = transform_t9(text, T9[rel], fired)
+    if rel == "main/naken_util.cpp":
+        # T11: the file includes <string> (libstdc++, which the front end cannot parse) but uses nothing from it
+        if "std::" in text:
+            raise SystemExit("T11: main/naken_util.cpp now uses std:: - the <string> include can no longer be dropped")
+        text, n = re.subn(r"^#include <string>\n", "", text, flags=re.M)
+        if n:
+            fired["T11"] = n
+        # T8 (as in core/UtilContext.cpp): `s = <const char *>;` on a String makes the front end synthesise a default assignment
+        # operator for a class with an array member and abort; String::operator=(const char *) is { set(text); }, so the call is
+        # written out.  Must fire.
+        text, n = re.subn(r"^(\s*)(command|arg) = (\"[a-z]*\"|temp|line|command\.value\(\) \+ space);", r"\1\2.set(\3);", text, flags=re.M)
+        if n < 4:
+            raise SystemExit("T8: expected String assignments in main/naken_util.cpp not found")
+        fired["T8"] = fired.get("T8", 0) + n
     return text, fired
 
 
